@@ -46,7 +46,9 @@ Section Verify.
   (* func (c *Authority) VerifyQuorumCert(qc) error *)
   Definition verify_qc (q : qc) : result unit :=
     if N.eqb (qc_hash q) (c_genesis c) then
-      (if N.eqb (qc_view q) 0%N then Ok tt else Reject)                     (* patch qc-view *)
+      (if N.eqb (qc_view q) 0%N                                            (* patch qc-view *)
+       then (match qc_sig q with None => Ok tt | Some _ => Reject end)     (* 9eff227: only without a signature *)
+       else Reject)
     else match qc_sig q with
     | None => Reject                                                      (* nil signature *)
     | Some s =>
